@@ -215,7 +215,7 @@ def enum_corpus(tier):
 
 def _targets(tier):
     prof = "big"  # lengths of 65536 and more belong to the quick tier too (the 5-byte CompactSize form inside a transaction)
-    req = ["nt:n_in>=253", "nt:n_out>=253", "nt:script>=253", "nt:wit-empty-stack", "nt:wit-item>=253", "nt:wit-item-0", "nt:trailing", "nt:outs>=5-all-empty-scripts", "nt:script-3000..65533", "nt:wit-item-3000..65533", "nt:script>=65536", "nt:wit-item>=65536"]
+    req = ["nt:n_in>=253", "nt:n_out>=253", "nt:script>=253", "nt:wit-empty-stack", "nt:wit-item>=253", "nt:wit-item-0", "nt:trailing", "nt:outs>=5-all-empty-scripts", "nt:script-3000..65533", "nt:wit-item-3000..65533", "nt:script>=65536", "nt:wit-item>=65536", "nt:out-script-reads-as-address-or-key"]
     return [
         Target("tx-roundtrip", check_tx, strategy=lambda tier: tx_cases(prof), budget={"quick": 4000, "thorough": 100000}, required=req),
         Target("fixed-corpus", check_tx, enumerate_=enum_corpus, shards=1),
